@@ -4,7 +4,6 @@ import (
 	"context"
 	"fmt"
 	"net"
-	"os"
 	"regexp"
 	"runtime/debug"
 	"strings"
@@ -61,9 +60,9 @@ func (j *joinBook) LoadDag(cancel context.CancelCauseFunc, ch <-chan *accountant
 
 const updName = "Gossip.updateDag"
 
-func bufconnMain() *wres {
+func bufconnMain(shard, n int) *wres {
 	start := time.Now()
-	res := &wres{Stats: map[string]*rpcStat{}, Viol: map[string]*vrec{}}
+	res := &wres{Shard: shard, Stats: map[string]*rpcStat{}, Viol: map[string]*vrec{}}
 	thorough := common.Tier() == "thorough"
 	full := world.GetFullNodes("G", "N1")
 
@@ -103,6 +102,9 @@ func bufconnMain() *wres {
 	}
 
 	sch := schemaPeerVertex(thorough, false, thorough)
+	if !thorough {
+		sch.blocks = nil // quick: base + single sweeps + all pairs (the same conversion is covered with the blocks by processLackingParent)
+	}
 	shapes, rule := sch.enumerate(200_000)
 	d := &rpcDef{name: updName, sch: sch}
 	st := &rpcStat{Enumerated: len(shapes), Rule: rule + "; each vertex is streamed after the 3 correct vertices of S1 to a freshly reset node"}
@@ -114,16 +116,13 @@ func bufconnMain() *wres {
 		err error
 		pan *panicRec
 	}
-	var tReset, tSvc, tCall, tBuild time.Duration
-	defer func() { fmt.Fprintln(os.Stderr, "TIMES reset", tReset, "svc", tSvc, "call", tCall, "build", tBuild) }()
 	for si, sh := range shapes {
-		if si > 3000 {
-			break
+		if si%n != shard {
+			continue
 		}
 		g := sch.getter(sh)
 		for _, cons := range []bool{false, true} {
 			variant := "raw"
-			t0 := time.Now()
 			msg := buildVertex(g, "Vertex.", cons, tipW)
 			if cons {
 				variant = "consistently-signed"
@@ -132,8 +131,6 @@ func bufconnMain() *wres {
 					continue
 				}
 			}
-			tBuild += time.Since(t0)
-			t0 = time.Now()
 			ctx, cancel := context.WithCancel(context.Background())
 			if err := fn.Book.VerifReset(ctx, 0); err != nil {
 				res.Err = "bufconn: reset: " + err.Error()
@@ -141,11 +138,7 @@ func bufconnMain() *wres {
 				return res
 			}
 			jb := &joinBook{AccountingBook: fn.Book, done: make(chan *panicRec, 1)}
-			tReset += time.Since(t0)
-			t0 = time.Now()
 			resetServices(fn, ctx, ver, jb, opts)
-			tSvc += time.Since(t0)
-			t0 = time.Now()
 			es.script = append(append([]*pb.Vertex{}, valid...), msg)
 			ch := make(chan outcome, 1)
 			go func() {
@@ -174,7 +167,6 @@ func bufconnMain() *wres {
 				}
 			}
 			cancel()
-			tCall += time.Since(t0)
 			st.Shapes++
 			ws := witnessOf(d, "fresh node syncing from a peer that streams S1 + this vertex", sh, variant, nil)
 			switch {
